@@ -253,7 +253,7 @@ NestedThF64 == {e \o "_th_lin_f64" : e \in {"clrt", "cscore", "cwald"}}
 GodCRow(b) == CHOOSE e \in GodCTab : e[1] = b
 \* calls that only vary the container of another call of the alphabet: left out of the exhaustive 2-call graph (their
 \* footprint and bookkeeping duplicate the list variant); they are in the 1-call graph, the cover and the random histories
-ContainerB == GodCB \cup {e[1] : e \in ContTab} \cup {"project_1d_8_4_open"}
+ContainerB == GodCB \cup {e[1] : e \in ContTab} \cup {"project_1d_8_4_open"} \cup Round7B
 
 \* (3) round 6: Spectrum arguments whose corner entries are present and NOT masked (a call that masks the corners temporarily
 \*     really writes), and the layout "V" for EVERY Spectrum argument: the argument is a view (fs[1:-1]; S: fs[::2]; N: fs[::-1]) of
@@ -276,7 +276,22 @@ OpenB == {e[1] : e \in OpenTab}
 \* the calls that mask the corners of their argument temporarily (Spectrum.S and its callers), on an argument with open corners
 MasksCornersB == {"S_1d", "S_2d", "watterson_1d_open", "tajima_1d_open", "zengs_E_1d_open"}
 
-ExtraTab == ExtraTab0 \cup ZeroTab \cup TrivTab \cup ContTab \cup OpenTab
+\* (4) round 7: data dictionaries over five chromosomes / scaffolds (the fragments and the seeded bootstraps are LISTS: their order
+\*     is part of the value and must not follow the string-hash order of the names); boundary VALUES of array arguments that a
+\*     call clips or sanitises (inbreeding coefficients exactly 1 and 0, ploidies, admixture proportions 0 / 1 as ndarrays)
+Round7Tab == {
+    <<"fragment_data_dict_5chr", "Misc.fragment_data_dict", "n", "none", TRUE>>,
+    <<"bootstraps_from_dd_chunks_5chr", "Misc.bootstraps_from_dd_chunks", "n", "none", TRUE>>,
+    <<"make_data_dict_vcf_5chr", "Misc.make_data_dict_vcf", "n", "none", TRUE>>,
+    <<"bootstraps_subsample_vcf_5chr", "Misc.bootstraps_subsample_vcf", "n", "none", TRUE>>,
+    <<"from_phi_inb_1d_4_F1", "Spectrum.from_phi_inbreeding", "n", "none", TRUE>>,
+    <<"from_phi_inb_2d_42_F1_03", "Spectrum.from_phi_inbreeding", "n", "none", TRUE>>,
+    <<"from_phi_inb_1d_4_F0", "Spectrum.from_phi_inbreeding", "n", "none", TRUE>>,
+    <<"from_phi_inb_2d_42_F00", "Spectrum.from_phi_inbreeding", "n", "none", TRUE>>,
+    <<"from_phi_2d_admix_props_array01", "Spectrum.from_phi", "n", "none", TRUE>> }
+Round7B == {e[1] : e \in Round7Tab}
+
+ExtraTab == ExtraTab0 \cup ZeroTab \cup TrivTab \cup ContTab \cup OpenTab \cup Round7Tab
 ExtraB == {e[1] : e \in ExtraTab}
 GodB   == GodB0 \cup GodCB
 ExtraRow(b) == CHOOSE e \in ExtraTab : e[1] = b
@@ -399,13 +414,17 @@ Needs(b) ==
       [] b \in {"project_1d_6_4", "project_1d_6_4_folded", "project_2d_64_44", "lowpass_projmat_6_4"} -> [Z EXCEPT !.proj = ProjK(4, 6, 0..6)]
       [] b = "project_2d_64_43" -> [Z EXCEPT !.proj = ProjK(4, 6, 0..6) \cup ProjK(3, 4, 0..4)]
       [] b \in {"from_data_dict_1d_4", "from_data_dict_1d_4_unpol"} -> [Z EXCEPT !.proj = DDK(4, DDA)]
-      [] b \in {"from_data_dict_2d_43", "from_data_dict_2d_43_tuples"} -> [Z EXCEPT !.proj = DDK(4, DDA) \cup DDK(3, DDB)]
+      [] b \in {"from_data_dict_2d_43", "from_data_dict_2d_43_tuples", "bootstraps_from_dd_chunks_5chr"} -> [Z EXCEPT !.proj = DDK(4, DDA) \cup DDK(3, DDB)]
       [] b = "cached_projection_4_6_3" -> [Z EXCEPT !.proj = {<<4, 6, 3>>}]
       [] b \in {"from_phi_2d_43_A", "from_phi_2d_34_A"} -> [Z EXCEPT !.dbeta = {<<4, "A8">>, <<3, "A8">>}]
       [] b = "from_phi_2d_43_B" -> [Z EXCEPT !.dbeta = {<<4, "B8">>, <<3, "B8">>}]
       [] b = "from_phi_3d_432_A" -> [Z EXCEPT !.dbeta = {<<4, "A8">>, <<3, "A8">>, <<2, "A8">>}]
       [] b \in {"from_phi_2d_22_A6", "from_phi_4d_2222", "from_phi_5d_22222"} -> [Z EXCEPT !.dbeta = {<<2, "A6">>}]
       [] b = "from_phi_inb_1d_4" -> [Z EXCEPT !.precalc = PartK(0..4, 2), !.bb = BBK(GridTags("A7", "3/10", 7))]
+      [] b = "bootstraps_subsample_vcf_5chr" -> [Z EXCEPT !.proj = ProjK(2, 2, 0..2)]     \* (one diploid individual per population: every SNP projects 2 -> 2)
+      [] b = "from_phi_inb_1d_4_F1" -> [Z EXCEPT !.precalc = PartK(0..4, 2), !.bb = BBK(GridTags("A7", "1m", 7))]      \* ("1m": F = 1, used as 1 - 1e-10)
+      [] b = "from_phi_inb_2d_42_F1_03" -> [Z EXCEPT !.precalc = PartK(0..4, 2) \cup PartK(0..2, 1),
+                                                     !.bb = BBK(GridTags("A7", "1m", 7)) \cup BBK(GridTags("A7", "3/10", 7))]
       [] b = "from_phi_inb_1d_6" -> [Z EXCEPT !.precalc = PartK(0..6, 3), !.bb = BBK(GridTags("A7", "3/10", 7))]
       [] b \in {"from_phi_inb_2d_42", "from_phi_inb_2d_42_arrays"} -> [Z EXCEPT !.precalc = PartK(0..4, 2) \cup PartK(0..2, 1), !.bb = BBK(GridTags("A7", "3/10", 7))]
       [] b = "cached_part_4_3" -> [Z EXCEPT !.part = PartK({4}, 3)]
